@@ -110,6 +110,7 @@ class State:
         self.prev_raw = []      # earlier raw matrices
         self.error = None      # (event, exception) when an event itself raised
         self.rejected = None   # (what, raised?, object unchanged?) of the last invalid call
+        self.terminal = False  # reference model lost (invalid call changed the object): not explored further
 
 
 def apply_event(st, ev):
@@ -419,6 +420,52 @@ def check_views(chk, st, hist, cls):
                     r0 += Nr[k]
 
 
+def check_mutual_coherence(chk, st, case, cls, what):
+    """After an invalid call that changed the object the reference model is lost; the statement's core
+    still applies to what the object reports: the block of every (receiver, transmitter) pair equals the
+    corresponding sub-block of the global matrix, get_Hk are its row blocks, and data is received as
+    W^H (big_H x + last_noise) split by the reported antenna counts."""
+    o = st.obj
+
+    def bad(rel, obs, exp):
+        chk.fail((cls, "after_invalid_call", what, rel), case, observed=numerics_short(obs),
+                 expected=numerics_short(exp))
+
+    Nr = [int(x) for x in o.Nr]
+    big = np.asarray(o.big_H)
+    H = o.H
+    nrows, ncols = np.shape(H)
+    cols = [int(H[0, l].shape[1]) for l in range(ncols)]
+    if sum(Nr) != big.shape[0] or sum(cols) != big.shape[1] or nrows != len(Nr):
+        bad("layout_vs_global_matrix", (Nr, cols, big.shape), "consistent shapes")
+        return
+    r0 = 0
+    for k in range(nrows):
+        c0 = 0
+        for l in range(ncols):
+            blk = big[r0:r0 + Nr[k], c0:c0 + cols[l]]
+            if not ok(H[k, l], blk):
+                bad("H_block_vs_big_H", H[k, l], blk)
+            if not ok(o.get_Hkl(k, l), blk):
+                bad("get_Hkl_vs_big_H", o.get_Hkl(k, l), blk)
+            c0 += cols[l]
+        if not ok(o.get_Hk(k), big[r0:r0 + Nr[k], :]):
+            bad("get_Hk_vs_big_H", o.get_Hk(k), big[r0:r0 + Nr[k], :])
+        r0 += Nr[k]
+    x = families.generic(77, (big.shape[1], 2), True, tag=9)
+    out = o.corrupt_concatenated_data(x.copy())
+    y = big @ x
+    if o.last_noise is not None:
+        y = y + o.last_noise
+    if (o.last_noise is None) != (o.noise_var is None):
+        bad("last_noise_none-ness", o.last_noise is None, o.noise_var is None)
+    if o.W is not None:
+        from scipy.linalg import block_diag
+        y = block_diag(*o.W).conj().T @ y
+    if not ok(out, y):
+        bad("corrupt_concatenated_data", out, y)
+
+
 # ----------------------------------------------------------------------
 def alphabet(ext, tier):
     ev = []
@@ -463,6 +510,8 @@ def run_bfs(chk, ext, depth, inits, tier, k=2):
     def enabled(hist, st):
         if st.error is not None:
             return []
+        if hist and hist[-1][0] == "bad" and st.rejected is not None and not st.rejected[2]:
+            return []       # model lost; judged by mutual coherence only
         out = []
         for ev in events:
             if ext and ev[0] in ("rand", "init") and st.NtE is not None and tuple(ev[-1]) != tuple(st.NtE):
@@ -480,14 +529,18 @@ def run_bfs(chk, ext, depth, inits, tier, k=2):
                      observed="%s: %s" % (type(e).__name__, e), expected="event completes")
             return
         if hist and hist[-1][0] == "bad" and st.rejected is not None:
+            # tools/INVALID_CALL_POLICY.md: the invalid call is free as a call (recorded as an outcome);
+            # what the property demands afterwards is that the views the object REPORTS still agree
             what, raised, same = st.rejected
-            chk.count("eval_rejected_calls")
-            if not raised:
-                chk.fail((cls, "invalid_call_accepted", what), case, observed="no exception",
-                         expected="ValueError / AssertionError")
-            elif not same:
-                chk.fail((cls, "rejected_call_changed_the_object", what), case,
-                         observed="object digest differs after the rejected call", expected="object untouched")
+            chk.count("eval_invalid_calls")
+            chk.outcome("invalid_call", (cls, what, "raised" if raised else "accepted",
+                                         "object_unchanged" if same else "object_changed"))
+            if not same:
+                with seams.patched((MU, "randn_c_RS", st.rng)):
+                    with chk.guard((cls, "after_invalid_call", what), case):
+                        check_mutual_coherence(chk, st, case, cls, what)
+                st.terminal = True
+                return
         with seams.patched((MU, "randn_c_RS", st.rng)):
             with chk.guard((cls, "invariant"), case):
                 check_views(chk, st, hist, cls)
